@@ -1508,9 +1508,12 @@ fn replace(s: str, old: str, new: str)->str{
 }
 
 fn replace(s: str, old: str, new: str, count: int)->str{
-    let parts = s.split(old, count).to_array();
-    parts.take(count+1).join(new)
-    + parts.skip(count+1).map((s: str)->{old + s}).join()
+    let parts = s.split(old, max(count, 0)).to_array();
+    if(count < 0,
+        error("count cannot be negative"),
+        parts.take(count+1).join(new)
+        + parts.skip(count+1).map((s: str)->{old + s}).join()
+    )
 }
 
 /// Sequence 3
